@@ -412,7 +412,7 @@ pub fn run(run: &'static Run) {
          thorough: all kinds 2^k(+-1) for 128,192,256,1024,4096,8192,16384,32768,65536,131072,2^20} x fill {compressible (zeros / 'a'), incompressible LCG bytes (printable for non-blobs)} \
          x write path {write_buf, write_stream with reads of all/1/7/4096 bytes (1-byte reads up to 70000 bytes), write(typed object) — one case runs all six and lets git read every distinct file they produce —, \
          git hash-object -w with core.looseCompression default/0 (quick) + 1/9 (thorough)}; \
-         truncate: for the files written by write_buf, git (default) and git level 0: EVERY length 0..file_len-1 (files of objects > 9000 bytes that do not compress are split into 16 ranges, in quick restricted to the blobs of 32768 and 70000 bytes written by write_buf/git, and skipped above 140000 bytes); \
+         truncate: for the files written by write_buf, git (default) and git level 0: EVERY length 0..file_len-1 (files of objects > 9000 bytes that do not compress are split into 16 ranges; such big files are cut at every length for all blob sizes <= 131073 and for trees/commits/tags of 32768 and 70000 bytes in thorough, only for blobs of 32768 and 70000 bytes written by write_buf/git in quick; skipped above 140000 bytes); \
          non-trivial = object written, id == git's, read back by git and gitoxide / a non-empty range of truncations all refused",
     );
     run.assume("git 2.39.5 hash-object --literally (id oracle), cat-file --batch (reader oracle); non-blob contents are syntactically valid objects padded to the wanted size");
@@ -466,6 +466,10 @@ pub fn run(run: &'static Run) {
                     }
                     // quick: every-length truncation of big files only for the blobs of 32768 and 70000 bytes written by write_buf and git
                     if file_big && run.quick() && (kind != 0 || path == "git-l0" || (size != 32768 && size != 70_000)) {
+                        continue;
+                    }
+                    // thorough: big files of trees/commits/tags only for 32768 and 70000 bytes (written by write_buf and git)
+                    if file_big && kind != 0 && (path == "git-l0" || (size != 32768 && size != 70_000)) {
                         continue;
                     }
                     let parts = if file_big { 16 } else { 1 };
